@@ -3,16 +3,27 @@
 A case that does not finish within CASE_TIMEOUT seconds of wall-clock time is reported by run.py as a
 failure of kind "timeout" (this property only).  The generous limit stands in for the work bound: the
 networks have <= 6(7) variables (<= 128 states, <= 2187 subspaces), for which every operation of
-the current tree takes well below a second."""
+the current tree takes well below a second.
+
+In addition the work of the one loop whose length is controlled by a configuration value - the simulation rounds of
+compute_attractor_candidates - is COUNTED (instrumentation of run_simulation_minification, nothing is changed): the
+round length is meant to double from 2**10 and the loop must stop once a round removes nothing and
+round_length * #candidates exceeds B = minimum_simulation_budget * #variables of the percolated network, hence one candidate
+computation may run at most  max(1, floor(log2 B) - 8) + #initial candidates + 2  rounds.  A computation that starts one round
+more is aborted and reported as `simulation_rounds_exceed_bound` (so a stalled loop is reported after seconds, not after the
+wall limit).  The few cases with a large budget (several 100000) carry their own wall limit (`wall_limit`)."""
+import math
 import random
 
 import families
-from common import make_sd, run_history
+from common import fail, import_biobalm, make_sd, run_history
 
 BOUND = ("networks with <= 6(7) variables (exhaustive 1-variable, sampled 2-variable, seeded random) and hand-built networks with <= 9 variables incl. the two D3 "
          "inputs; seeded histories of <= 6 (quick) / <= 10 (thorough) arbitrary public calls (all expansion strategies with random limits and options, "
          "candidates/seeds/sets on expanded, unexpanded and skipped nodes with all option combinations incl. symbolic_fallback, skipping, reclaim, pickle, "
-         "succession_control) under seeded configurations (thresholds/limits/budgets in {0,1,2,5,default}); wall-clock limit 20 s per case")
+         "succession_control) under seeded configurations (thresholds/limits/budgets in {0,1,2,5,default}); wall-clock limit 20 s per case; plus 3 (quick) / 7 (thorough) "
+         "cases with minimum_simulation_budget in 350000..600000 on nodes with a motif-avoidant attractor (own wall limit 120 s); in every case the simulation rounds of "
+         "each candidate computation are counted against max(1, floor(log2(budget * variables)) - 8) + initial candidates + 2")
 RULE = "non-trivial = the history contains at least one attractor query or control call and at least one expansion or skipping call"
 CASE_TIMEOUT = 20.0
 TIMEOUT_IS_FAILURE = True
@@ -20,7 +31,27 @@ TIMEOUT_IS_FAILURE = True
 ALL_OPS = families.PLAIN_OPS + families.QUERY_OPS + families.QUERY_OPS + families.SKIP_OPS + families.HOUSE_OPS + families.SHORTCUT_OPS + ["control"]
 
 
+LARGE_BUDGET_WALL = 120.0
+# (network, prefix, budget, query): nodes with a motif-avoidant attractor and ONE surviving candidate, budget * variables >= 2**20
+LARGE_BUDGET = [
+    ("maa_core", [["succ", 0]], 400_000, ["cands", 0, True, True]),
+    ("xnor2", [["succ", 0]], 600_000, ["seeds", 0, False]),
+    ("maa_latch", [["bfs", None, None, None]], 360_000, ["build"]),
+    ("core__switch_or", [["bfs", None, None, None]], 250_000, ["seeds", 0, False]),
+    ("maa_core", [["succ", 0]], 349_526, ["seeds", 0, False]),
+    ("maa_gated", [["block", True, None, True, False]], 400_000, ["build"]),
+    ("maa_source", [["scc", True]], 400_000, ["cands", 1, False, True]),
+]
+
+
+def large_budget_nets():
+    return dict(families.HAND, xnor2=families.XNOR2, **families.BLOCKS)
+
+
 def cases(seed, tier):
+    nets = large_budget_nets()
+    for name, pre, budget, query in (LARGE_BUDGET[:3] if tier == "quick" else LARGE_BUDGET):
+        yield {"net": name, "bnet": nets[name], "config": {"minimum_simulation_budget": budget}, "history": pre + [query], "wall_limit": LARGE_BUDGET_WALL}
     yield {"net": "D3a", "bnet": families.HAND["D3a"], "config": {}, "history": [["seeds", 0, False]]}
     yield {"net": "D3b", "bnet": families.HAND["D3b"], "config": {}, "history": [["scc", True], ["seeds", 0, False]]}
     yield {"net": "D3b", "bnet": families.HAND["D3b"], "config": {}, "history": [["seeds", 0, False], ["sets", 0]]}
@@ -45,11 +76,72 @@ def cases(seed, tier):
             yield {"net": name, "bnet": bnet, "config": cfg, "history": hist}
 
 
+class WorkBoundExceeded(BaseException):
+    """Raised by the instrumentation to abort a candidate computation that starts more simulation rounds than the bound allows."""
+
+
+STACK = []  # one frame per running compute_attractor_candidates call (they nest: block expansion queries sub-diagrams)
+STATS = {"max_rounds": 0, "computations": 0, "rounds": 0}
+
+
+def rounds_bound(budget: int, variables: int, candidates: int) -> int:
+    b = max(1, int(budget) * int(variables))
+    return max(1, int(math.floor(math.log2(b))) - 8) + int(candidates) + 2
+
+
+def install_counters():
+    """Wrap (never replace the logic of) the candidate computation and its simulation round so that rounds per computation are counted."""
+    import_biobalm()
+    import biobalm._sd_attractors.attractor_candidates as ac
+    import biobalm.succession_diagram as sdm
+
+    if getattr(ac, "_pyvc_c13_counters", False):
+        return
+    real_compute, real_round = sdm.compute_attractor_candidates, ac.run_simulation_minification
+
+    def compute(*a, **k):
+        frame = {"rounds": 0, "bound": None}
+        STACK.append(frame)
+        STATS["computations"] += 1
+        try:
+            return real_compute(*a, **k)
+        finally:
+            STACK.pop()
+            STATS["max_rounds"] = max(STATS["max_rounds"], frame["rounds"])
+
+    def one_round(*a, **k):
+        if STACK:
+            frame = STACK[-1]
+            sd, node_id, graph, cands = a[0], a[1], a[2], a[3]
+            if frame["bound"] is None:
+                frame["args"] = (sd.config["minimum_simulation_budget"], len(graph.network_variables()), len(cands))
+                frame["bound"] = rounds_bound(*frame["args"])
+            frame["rounds"] += 1
+            STATS["rounds"] += 1
+            if frame["rounds"] > frame["bound"]:
+                raise WorkBoundExceeded(f"node {node_id}: simulation round {frame['rounds']} started (round length {k.get('max_iterations')}, {len(cands)} candidates); "
+                                        f"bound {frame['bound']} for (budget, variables, initial candidates) = {frame['args']}")
+        return real_round(*a, **k)
+
+    sdm.compute_attractor_candidates = compute
+    ac.run_simulation_minification = one_round
+    ac._pyvc_c13_counters = True
+
+
 def check_with_info(case):
-    sd = make_sd(case["bnet"], case["config"])
-    sd, log = run_history(sd, case["history"])
+    install_counters()
+    del STACK[:]
+    STATS.update(max_rounds=0, computations=0, rounds=0)
     ops = [s[0] for s in case["history"]]
-    return [], {"ops": ops, "limit_errors": sum(1 for r in log if isinstance(r, dict) and "raised" in r)}
+    sd = make_sd(case["bnet"], case["config"])
+    try:
+        sd, log = run_history(sd, case["history"])
+    except WorkBoundExceeded as e:
+        del STACK[:]
+        return [fail("simulation_rounds_exceed_bound", "every operation finishes within bounded work: no loop runs without making progress (simulation rounds per candidate "
+                     "computation are bounded by the configured budget)", str(e), observed=STATS["rounds"])], {"ops": ops, "limit_errors": 0, "max_rounds": STATS["max_rounds"]}
+    return [], {"ops": ops, "limit_errors": sum(1 for r in log if isinstance(r, dict) and "raised" in r), "max_rounds": STATS["max_rounds"],
+                "candidate_computations": STATS["computations"]}
 
 
 def check(case):
